@@ -11,6 +11,7 @@ import (
 	"fmt"
 	"reflect"
 	"runtime/debug"
+	"sort"
 	"strings"
 )
 
@@ -21,6 +22,7 @@ type vfamily struct {
 	MaxVersion int16
 	Cfgs       []vcfg
 	C10        bool // decode target for data the client does not control
+	NoC09      bool // decode entry only (its result is not the family type): not a round-trip family
 	enc        func(root reflect.Value, ver int16) ([]byte, string, error)
 	dec        func(b []byte, ver int16) (reflect.Value, error)
 	flexible   func(ver int16) bool
@@ -250,6 +252,24 @@ func vfamilies() []*vfamily {
 		plain("StickyAssignorUserDataV0", "member", &StickyAssignorUserDataV0{}, vnoCfg),
 		plain("StickyAssignorUserDataV1", "member", &StickyAssignorUserDataV1{}, vnoCfg),
 	)
+	// the entry the sticky assignor really uses for the user data of other members: V1, else V0 - with an acceptance
+	// oracle: whatever it returns without error must be what a strict, independent reading of the bytes gives
+	out = append(out, &vfamily{Name: "StickyUserDataAuto", Kind: "member", Type: reflect.TypeOf(StickyAssignorUserDataV1{}), Cfgs: vnoCfg, C10: true, NoC09: true,
+		flexible:  func(int16) bool { return false },
+		headerLen: func(int16) int { return 0 },
+		enc: func(root reflect.Value, ver int16) ([]byte, string, error) {
+			return verifEncode(root.Interface().(encoder))
+		},
+		dec: func(b []byte, ver int16) (reflect.Value, error) {
+			ud, err := deserializeTopicPartitionAssignment(b)
+			if err != nil {
+				return reflect.Value{}, err
+			}
+			if msg := vstrictStickyUserData(b, ud); msg != "" {
+				panic("verif-accept: " + msg)
+			}
+			return reflect.ValueOf(ud), nil
+		}})
 	// request header: the slots are correlation id and client id; Cfgs[i].Fmt selects the body (header version 1 / 2);
 	// enc/dec depend on the configuration and are supplied by encdec()
 	out = append(out, &vfamily{Name: "requestHeader", Kind: "header", Type: reflect.TypeOf(VerifReqHeader{}),
@@ -320,4 +340,62 @@ func (f *vfamily) encdec(cfg vcfg) (func(reflect.Value, int16) ([]byte, string, 
 		return reflect.ValueOf(&VerifReqHeader{req.correlationID, req.clientID}), nil
 	}
 	return enc, dec
+}
+
+// vstrictStickyUserData reads sticky-assignor user data strictly (every count and length must be backed by data, all
+// bytes consumed; V1 = topics + generation, V0 = topics only) and compares it with what sarama accepted.
+func vstrictStickyUserData(b []byte, got StickyAssignorUserData) string {
+	parse := func(withGen bool) (parts []string, gen int32, ok bool) {
+		r := &vreader{b: b}
+		n := r.i32()
+		if r.err != "" || n < 0 {
+			return nil, 0, false
+		}
+		for i := int32(0); i < n; i++ {
+			l := r.i16()
+			if r.err != "" || l < 0 {
+				return nil, 0, false
+			}
+			name := r.bytesN(int(l))
+			c := r.i32()
+			if r.err != "" || c < 0 {
+				return nil, 0, false
+			}
+			for k := int32(0); k < c; k++ {
+				p := r.i32()
+				if r.err != "" {
+					return nil, 0, false
+				}
+				parts = append(parts, fmt.Sprintf("%s/%d", name, p))
+			}
+		}
+		if withGen {
+			gen = r.i32()
+		}
+		if r.err != "" || r.off != len(b) {
+			return nil, 0, false
+		}
+		return parts, gen, true
+	}
+	want, gen, ok := parse(true)
+	v1 := ok
+	if !ok {
+		want, _, ok = parse(false)
+	}
+	if !ok {
+		return fmt.Sprintf("%d bytes of user data were accepted (as %T) although they are neither a complete V1 nor a complete V0 encoding: some count or length is not backed by the data", len(b), got)
+	}
+	var have []string
+	for _, tp := range got.partitions() {
+		have = append(have, fmt.Sprintf("%s/%d", tp.Topic, tp.Partition))
+	}
+	sort.Strings(want)
+	sort.Strings(have)
+	if fmt.Sprint(want) != fmt.Sprint(have) {
+		return fmt.Sprintf("accepted user data lists partitions %v, the bytes say %v", have, want)
+	}
+	if v1 && got.hasGeneration() && int32(got.generation()) != gen {
+		return fmt.Sprintf("accepted user data has generation %d, the bytes say %d", got.generation(), gen)
+	}
+	return ""
 }
